@@ -20,7 +20,8 @@ for d in sorted(glob.glob(os.path.join(ROOT, "seeded", "*"))):
         if l["detected"] and not f["detected"]:
             s += " (missed before strengthening)"
         cells.append(s)
-    rows.append(f"| `{os.path.basename(d)}` | {meta['needs_to_manifest']} | {'; '.join(cells)} |")
+    note = f" *Note:* {meta['note']}." if meta.get("note") else ""
+    rows.append(f"| `{os.path.basename(d)}` | {meta['needs_to_manifest']}{note} | {'; '.join(cells)} |")
 print("| seeded change | what it needs in order to manifest | quick checks run against it (latest result) |")
 print("|---|---|---|")
 print("\n".join(rows))
